@@ -5,11 +5,14 @@ import (
 	"crypto/sha256"
 	"fmt"
 
+	"github.com/elastos/Elastos.ELA/auxpow"
+	"github.com/elastos/Elastos.ELA/blockchain"
 	"github.com/elastos/Elastos.ELA/common"
 	"github.com/elastos/Elastos.ELA/core"
 	"github.com/elastos/Elastos.ELA/core/contract"
 	"github.com/elastos/Elastos.ELA/core/contract/program"
 	"github.com/elastos/Elastos.ELA/core/transaction"
+	"github.com/elastos/Elastos.ELA/core/types"
 	common2 "github.com/elastos/Elastos.ELA/core/types/common"
 	"github.com/elastos/Elastos.ELA/core/types/interfaces"
 	"github.com/elastos/Elastos.ELA/core/types/outputpayload"
@@ -103,7 +106,8 @@ func Input(tx interfaces.Transaction, idx int) *common2.Input {
 	return &common2.Input{Previous: common2.OutPoint{TxID: tx.Hash(), Index: uint16(idx)}, Sequence: 0}
 }
 
-func unsigned(tx interfaces.Transaction) []byte {
+// Unsigned is the signed part of a transaction (SerializeUnsigned).
+func Unsigned(tx interfaces.Transaction) []byte {
 	buf := new(bytes.Buffer)
 	tx.SerializeUnsigned(buf)
 	return buf.Bytes()
@@ -111,7 +115,7 @@ func unsigned(tx interfaces.Transaction) []byte {
 
 // SignStandard returns the program that spends a standard address of k for tx.
 func SignStandard(tx interfaces.Transaction, k Key) (*program.Program, error) {
-	sig, err := crypto.Sign(k.Priv, unsigned(tx))
+	sig, err := crypto.Sign(k.Priv, Unsigned(tx))
 	if err != nil {
 		return nil, err
 	}
@@ -121,7 +125,7 @@ func SignStandard(tx interfaces.Transaction, k Key) (*program.Program, error) {
 // SignCrossChain returns a program with the given cross-chain script signed by signers.
 func SignCrossChain(tx interfaces.Transaction, code []byte, signers []Key) (*program.Program, error) {
 	var param []byte
-	data := unsigned(tx)
+	data := Unsigned(tx)
 	for _, k := range signers {
 		sig, err := crypto.Sign(k.Priv, data)
 		if err != nil {
@@ -131,4 +135,68 @@ func SignCrossChain(tx interfaces.Transaction, code []byte, signers []Key) (*pro
 		param = append(param, sig...)
 	}
 	return &program.Program{Code: code, Parameter: param}, nil
+}
+
+// Coinbase builds a coinbase transaction for a block at the given height paying reward to the
+// foundation / CR-assets address and the miner address in a 30/70 split.
+func (n *Node) Coinbase(height uint32, miner common.Uint168, reward common.Fixed64, nonce uint64) interfaces.Transaction {
+	first := *n.Params.FoundationProgramHash
+	if height >= n.Params.CRConfiguration.CRCommitteeStartHeight {
+		first = *n.Params.CRConfiguration.CRAssetsProgramHash
+	}
+	nb := make([]byte, 8)
+	for i := 0; i < 8; i++ {
+		nb[i] = byte(nonce >> (8 * uint(i)))
+	}
+	attr := common2.NewAttribute(common2.Nonce, nb)
+	f := common.Fixed64(float64(reward) * 0.3)
+	f++ // never below 30% after float truncation
+	return transaction.CreateTransaction(common2.TxVersion09, common2.CoinBase, payload.CoinBaseVersion,
+		&payload.CoinBase{Content: []byte("verif")}, []*common2.Attribute{&attr},
+		[]*common2.Input{{Previous: common2.OutPoint{TxID: common.EmptyHash, Index: 0xffff}, Sequence: 0xffffffff}},
+		[]*common2.Output{Output(first, f), Output(miner, reward-f)}, height, []*program.Program{})
+}
+
+// MakeBlock assembles a block on the node's chain tip (BlockChain.BestChain): coinbase first,
+// merkle root, easiest difficulty bits and a solved merged-mining proof, so that
+// BlockChain.CheckBlockSanity judges its contents. Timestamps are tip + 2 (no clock).
+func (n *Node) MakeBlock(txs ...interfaces.Transaction) (*types.Block, error) {
+	tip := n.Chain.BestChain
+	height := tip.Height + 1
+	all := append([]interfaces.Transaction{n.Coinbase(height, FixedKey("miner", 0).StandardHash(), 1000000, uint64(height))}, txs...)
+	var ids []common.Uint256
+	for _, t := range all {
+		ids = append(ids, t.Hash())
+	}
+	root, err := crypto.ComputeRoot(ids)
+	if err != nil {
+		return nil, err
+	}
+	b := &types.Block{
+		Header: common2.Header{
+			Version:    0,
+			Previous:   *tip.Hash,
+			MerkleRoot: root,
+			Timestamp:  tip.Timestamp + 2,
+			Bits:       0x207fffff,
+			Height:     height,
+			Nonce:      0,
+		},
+		Transactions: all,
+	}
+	ap := auxpow.GenerateAuxPow(b.Header.Hash())
+	ap.ParBlockHeader.Timestamp = b.Header.Timestamp
+	target := blockchain.CompactToBig(b.Header.Bits)
+	for nonce := uint32(0); ; nonce++ {
+		ap.ParBlockHeader.Nonce = nonce
+		h := ap.ParBlockHeader.Hash()
+		if blockchain.HashToBig(&h).Cmp(target) <= 0 {
+			break
+		}
+		if nonce > 1<<20 {
+			return nil, fmt.Errorf("no proof of work found")
+		}
+	}
+	b.Header.AuxPow = *ap
+	return b, nil
 }
